@@ -27,7 +27,7 @@ def main():
              ("MC_Trees", c07.trees_cfg(7, 1, {"var", "lit", "app", "bin", "neg"}, {"prod", "diff"}), "trees-7-chains"),
              ("MC_Trees", c07.trees_cfg(6, 1, {"var", "type", "app", "lam", "pi", "ndpi", "let", "if"}, {"sum"}), "trees-6-binders"),
              ("MC_Scope", c08.cfg(6), "scope-6"), ("MC_Listing", c15.list_cfg(3, 2, "CharsQ"), "list-3x2"),
-             ("MC_Punch", c12.cfg(4), "punch-4"), ("MC_Conv", c06.conv_cfg(5), "conv-5"), ("MC_Rewrite", c19.cfg(5), "rewrite-5")]
+             ("MC_Punch", c12.cfg(4), "punch-0-4"), ("MC_Punch", c12.cfg(6, 1), "punch-1-6"), ("MC_Punch", c12.cfg(6, 2), "punch-2-6"), ("MC_Conv", c06.conv_cfg(5), "conv-5"), ("MC_Rewrite", c19.cfg(5), "rewrite-5")]
     jobs.append(("MC_Trees", vf.cfg_consts(MaxSize=5, MaxParens=0, MaxDrops=0, Kinds=c07.ALLKINDS, BinOps={"prod", "quot", "sum", "diff", "lt"}) +
                  "INIT Init\nNEXT Next\nINVARIANT InvShowValid\nCHECK_DEADLOCK FALSE\n", "showvalid-5"))
     jobs.append(("MC_Trees", c07.trees_cfg(5, 0, {"var", "type", "lam", "pi", "ndpi", "let", "if", "app", "neg"}, {"sum", "lt"}, drops=1), "trees-drop-binders-5"))
